@@ -34,6 +34,8 @@ def _case(draw, unit):
     cfg = draw(xf.cfg_strategy(kinds=[unit['kind']] if unit.get('kind') else None))
     sc = st.one_of(st.sampled_from(SCALARS), st.floats(-4, 4, allow_nan=False).map(lambda v: float('%.4g' % v)))
     NC = draw(st.sampled_from([(1, 1), (2, 2), (2, 3), (3, 2), (4, 4), (1, 3), (3, 1), (2, 2), (3, 3)]))
+    if draw(st.integers(0, 19)) == 0:
+        NC = draw(st.sampled_from([(1, 32), (2, 33), (1, 64), (33, 2), (2, 40)]))      # many channels / items (where kernels switch strategy)
     return {'cfg': cfg, 'N': NC[0], 'C': NC[1], 'a': draw(sc), 'b': draw(sc),
             'rx': draw(core.recipe_strategy()), 'ry': draw(core.recipe_strategy()),
             'k': draw(st.integers(0, 10**6))}
@@ -51,7 +53,7 @@ def run_case(case):
     r.label(kind, cfg.get('mode'), 'N>=2,C>=2' if (N >= 2 and C >= 2) else None,
             'separate_row_col_filters' if cfg.get('wave_row') else None,
             'nondefault_layout' if kind.startswith('dtcwt') and (cfg['o_dim'] % 6, cfg['ri_dim'] % 6) != (2, 5) else None,
-            'J>=2' if cfg.get('J', 1) >= 2 else None)
+            'J>=2' if cfg.get('J', 1) >= 2 else None, 'many_channels_or_items' if max(N, C) >= 32 else None)
     r.nontrivial = N >= 2 and C >= 2
     _, fn = xf.build(cfg)
     tin = xf.total_in(cfg)
